@@ -1,0 +1,10 @@
+//go:build verif
+
+package gosqlx
+
+// Contracts for the govc verification-condition generator (see /verif/DESIGN.md, sections 1.2, 4.11, 4.13).
+// This file is comment-only: it contains no declarations and changes no compiled code.
+
+//@ func *
+//@   ensures  @C13 implies(err != nil, structured(err) || isctx(err))
+//@   ensures  @C11 implies(err != nil && causectx(err), isctx(err))
